@@ -219,7 +219,7 @@ def _corpus_task(a) -> Dict[str, Dict[str, str]]:
                    "vlog": os.path.exists(os.path.join(src, "_vlog.py")),
                    "options": {"extra_debug": bool(env.get("debug", True))},
                    "steps": [{"op": "eval", "h": 0, "style": ev["style"], "root": ev["root"], "module": ev["module"],
-                              "root_path": ev.get("root_path", "/corpus/root_out")}]}
+                              "root_path": ev.get("root_path", "/corpus/root_out"), "args": ev.get("args") or []}]}
             r = worker.run_pristine(seg, hashseed=env.get("hashseed", "0"), cwd=env.get("cwd"))
             if r.get("fatal"):
                 raise MachineryError("corpus program %s::%s failed: %s" % (p, ev["id"], r["fatal"]))
